@@ -4,7 +4,7 @@
 # /repo itself is never touched, so background runs are not disturbed. The copy is removed afterwards.
 REV=""
 if [ "$1" = "-R" ]; then REV="-R"; shift; fi
-PATCH=$1; shift
+PATCH=$(readlink -f "$1"); shift
 COPY=$(mktemp -d /tmp/mutrepo-XXXXXX)
 cp -r /repo/. "$COPY"/
 git -C "$COPY" apply $REV "$PATCH" || { echo "patch does not apply"; rm -rf "$COPY"; exit 3; }
